@@ -42,11 +42,24 @@ macro_rules! digest {
         fnv(&mut h, &sk.get_public_key().into_bytes());
         let sk3 = ps::PrivateKey::try_from_bytes(sk.into_bytes()).unwrap();
         fnv(&mut h, &sk3.try_sign_with_rng(&mut Fixed([7u8; 32]), msg, ctx).unwrap());
-        println!("{} {:016x}", $name, h);
+        // bulk: many messages under one key (a configuration-dependent difference confined to rare signing paths - a second
+        // rejection test, an exactly-omega hint count - needs hundreds of signatures to show); every signature must verify
+        let mut hb = 0xcbf29ce484222325u64;
+        let mut bad_own = 0u32;
+        for i in 0u32..700 {
+            let m = i.to_le_bytes();
+            let r = std::panic::catch_unwind(std::panic::AssertUnwindSafe(|| sk3.try_sign_with_rng(&mut Fixed([0u8; 32]), &m, b"").unwrap()));
+            match r {
+                Ok(s) => { fnv(&mut hb, &s); if !pk.verify(&m, &s, b"") { bad_own += 1; } }
+                Err(_) => { fnv(&mut hb, b"panic"); bad_own += 1; }
+            }
+        }
+        println!("{} {:016x} bulk {:016x} own-signatures-rejected-or-panicked {}", $name, h, hb, bad_own);
     }};
 }
 
 fn main() {
+    std::panic::set_hook(Box::new(|_| {}));
     #[cfg(feature = "s44")]
     digest!(ml_dsa_44, "44");
     #[cfg(feature = "s65")]
